@@ -75,14 +75,14 @@ func NewFloatFromString(typ *types.FloatType, s string) (*Float, error) {
 			// > The 80-bit format used by x86 is represented as 0xK followed by 20
 			// > hexadecimal digits.
 			hex := strings.TrimPrefix(s, "0xK")
-			const maxHexLen = 20
-			if len(hex) < maxHexLen {
-				// pad with leading zeroes (e.g. for case like `0xK01`)
-				hex = strings.Repeat("0", maxHexLen-len(hex)) + hex
-			}
+			// Note, as in LLVM's lexer the first four digits are the sign and
+			// exponent, the remaining digits the significand (e.g. for case like
+			// `0xK01`).
 			const hexLen = 8
-			part1 := hex[:hexLen/2]
-			part2 := hex[hexLen/2:]
+			part1, part2 := hex, "0"
+			if len(hex) > hexLen/2 {
+				part1, part2 = hex[:hexLen/2], hex[hexLen/2:]
+			}
 			se, err := strconv.ParseUint(part1, 16, 16)
 			if err != nil {
 				return nil, errors.WithStack(err)
@@ -102,12 +102,13 @@ func NewFloatFromString(typ *types.FloatType, s string) (*Float, error) {
 			// > hexadecimal digits.
 			hex := strings.TrimPrefix(s, "0xL")
 			const maxHexLen = 32
-			if len(hex) < maxHexLen {
-				// pad with leading zeroes (e.g. for case like `0xL01`)
-				hex = strings.Repeat("0", maxHexLen-len(hex)) + hex
+			// Note, as in LLVM's lexer the first 16 digits are the first word and
+			// the remaining digits the second word; if there are fewer than 16
+			// digits the first word is zero (e.g. for case like `0xL01`).
+			part1, part2 := "0", hex
+			if len(hex) > maxHexLen/2 {
+				part1, part2 = hex[:maxHexLen/2], hex[maxHexLen/2:]
 			}
-			part1 := hex[:maxHexLen/2]
-			part2 := hex[maxHexLen/2:]
 			a, err := strconv.ParseUint(part1, 16, 64)
 			if err != nil {
 				return nil, errors.WithStack(err)
@@ -130,12 +131,13 @@ func NewFloatFromString(typ *types.FloatType, s string) (*Float, error) {
 			// > represented by 0xM followed by 32 hexadecimal digits.
 			hex := strings.TrimPrefix(s, "0xM")
 			const maxHexLen = 32
-			if len(hex) < maxHexLen {
-				// pad with leading zeroes (e.g. for case like `0xM01`)
-				hex = strings.Repeat("0", maxHexLen-len(hex)) + hex
+			// Note, as in LLVM's lexer the first 16 digits are the first double
+			// and the remaining digits the second double; if there are fewer than
+			// 16 digits the first double is zero (e.g. for case like `0xM01`).
+			part1, part2 := "0", hex
+			if len(hex) > maxHexLen/2 {
+				part1, part2 = hex[:maxHexLen/2], hex[maxHexLen/2:]
 			}
-			part1 := hex[:maxHexLen/2]
-			part2 := hex[maxHexLen/2:]
 			a, err := strconv.ParseUint(part1, 16, 64)
 			if err != nil {
 				return nil, errors.WithStack(err)
